@@ -224,6 +224,9 @@ def body(ctx):
     wrapper(ctx, prog, viol)
     propagate(ctx, prog)
     buffer_kept(ctx, prog, viol)
+    # what the event handler makes of the decoder's end-of-stream outcome: UnexpectedSocketClose whatever frames the same wake-up handed on
+    import c08
+    c08.eof_before_closeok(ctx, prog, pid_role='end-of-stream-not-reported')
     if not viol and ctx.tier == 'thorough':
         # translator validation: the real decoder against a reference reading over ~5000 segmentations / terminal events
         rp = ctx.replay_native('segmentation-differential', NATIVE_DIFF, inject_into='src/frame_buffer.rs', profiles=('dev', 'release'))
